@@ -91,6 +91,11 @@ FAMILIES = {
     "nested-select-first-case-of-three": (2, lambda n: nest(lambda i: "select case (k%d)\ncase (%d)" % (i, i), lambda i: "case (-%d)\nb = %d\ncase default\nb = 0\nend select" % (i, i), n)),
     "nested-select-last-case": (2, lambda n: nest(lambda i: "select case (k%d)\ncase (%d)\nb = %d\ncase default" % (i, i, i), lambda i: "end select", n)),
     "nested-do-with-trailing-statements": (2, lambda n: nest(lambda i: "do i%d = 1, 2\nb = %d" % (i, i), lambda i: "b = -%d\nend do" % i, n)),
+    # a unary operator in front of the parenthesis at every level
+    "nested-paren-unary-minus": (2, lambda n: wrap(["x = " + "-(" * n + "a" + ")" * n])),
+    "nested-paren-unary-minus-binary": (2, lambda n: wrap(["x = " + "(-(b + " * n + "a" + "))" * n])),
+    "nested-paren-defined-unary": (2, lambda n: wrap(["x = " + ".inv. (" * n + "a" + ")" * n])),
+    "nested-paren-not": (2, lambda n: wrap(["l = " + ".not. (" * n + "a" + ")" * n])),
     "nested-if-stmt-in-do": (2, lambda n: nest(lambda i: "do i%d = 1, 2\nif (a > %d) a = %d" % (i, i, i), lambda i: "end do", n)),
 }
 F2008_ONLY = {"nested-block", "nested-mixed"}
